@@ -221,7 +221,7 @@ def run(scn):
         sim.step()
         cyc += 1
         if not cyc & 63 and stuck(sim, cyc):
-            break       # no handshake anywhere for 20000 cycles: the run is stuck, do not spin to the cap
+            break       # no handshake anywhere for 60000 cycles: the run is stuck, do not spin to the cap
     S = sim.S
     if phase["p"] != "end":
         viol.add("hang", "BIST did not finish after %d cycles (phase %s, generator done=%d, checker done=%d)" % (cyc, phase["p"], S[ix(g.done)], S[ix(c.done)]))
